@@ -28,6 +28,11 @@ func mkParty(r *h.Rand, kind int) *party {
 
 func runC05(cx *ctx) {
 	r := cx.rng
+	// the chunk counter beyond its lowest byte: 257 chunks (16 MiB), byte-exact against the Lean reference
+	{
+		rb := r.Fork()
+		cx.ru.Do(func() *h.Case { return bigCounterCase(rb, 257) })
+	}
 	// (a) Go writes, Lean reproduces; (b) each decrypts the other's file
 	for kind := 0; kind < 4; kind++ {
 		kind := kind
